@@ -569,8 +569,14 @@ fn attributes(node: dom::XmlNode) -> Vec<dom::XmlNode> {
     nodes
 }
 
+/// The children of a node in the XPath data model: an attribute node has none (the value items of
+/// the DOM are not nodes of the data model).
 fn child(node: dom::XmlNode) -> Vec<dom::XmlNode> {
     let mut nodes = vec![];
+
+    if let dom::XmlNode::Attribute(_) = node {
+        return nodes;
+    }
 
     for c in node.child_nodes().iter() {
         nodes.push(c.clone());
@@ -582,7 +588,7 @@ fn child(node: dom::XmlNode) -> Vec<dom::XmlNode> {
 fn descendant(node: dom::XmlNode) -> Vec<dom::XmlNode> {
     let mut nodes = vec![];
 
-    for child in node.child_nodes().iter() {
+    for child in child(node) {
         nodes.push(child.clone());
 
         let mut desc = descendant(child);
